@@ -3,6 +3,7 @@ CONSTANTS
   Modes = {"race"}
   GivenChoices = {FALSE}
   SendFailChoices = {FALSE}
+  BadPortChoices = {FALSE}
   WithRequest = FALSE
   WithConnectBack = TRUE
   Cancellable = FALSE
